@@ -131,6 +131,39 @@ NOTES = {
  'C19_9': 'missed at first; where the router matches a path the reference does not, the router\'s own assignment is round-tripped; signed / blank / underscore number spellings behind another wildcard',
  'C19_10': 'missed at first; sibling rules (same wildcard position with / without a converting filter) registered before the rule under test',
  'C20_10': 'missed at first; URL-shaped paths (`/http://[x`, `//host/..`, fragments) as the whole path (`404-root` kind)',
+ # round 6
+ 'C01_11': 'missed at first; a rule may lose its method again through the Route object: it stays, answers 405 and still beats a sibling wildcard rule',
+ 'C01_12': 'missed at first; a further method attached through the Route object (no wildcard names of its own), behind a rule that shares a wildcard head',
+ 'C02_11': 'missed at first; requests with an Accept header asking for a JSON error document (the 405 must still carry Allow)',
+ 'C03_11': 'missed at first; two threads adding / removing hooks at the same time, every single-preemption schedule of either thread',
+ 'C03_12': 'missed at first; iterables of bytearray / memoryview items - which exposed a genuine defect of the unchanged tree (abandoned iterable never closed; repaired, /repo 8aa146c)',
+ 'C04_11': 'missed at first; two bodies read concurrently on two threads (readinto and read streams), every single-preemption schedule',
+ 'C04_12': 'missed at first; Content-Length spelled with leading zeros',
+ 'C05_11': 'missed at first; a well-formed multipart document with epilogue as payload under a multipart content type, every truncation and CRLF fault through WSGI',
+ 'C05_12': 'missed at first; Transfer-Encoding spelled as a list ending in chunked (letter case, blanks, empty elements, gzip first)',
+ 'C07_11': 'missed at first; every upload is moved around like a file (end- and current-relative seeks beyond its own start and end)',
+ 'C07_12': 'missed at first; chunk sizes spelled with upper-case hex letters (and zero-padded)',
+ 'C08_12': 'missed at first; `urlbuild` kind (reverse routing inside a handler) - which exposed a genuine defect of the unchanged tree (shared rule parser; repaired, /repo ed51c0a)',
+ 'C08_13': 'missed at first; `manyheaders` kind (150 fresh header names per request, more than any small memo holds) after one warm request of the other kind',
+ 'C09_11': 'missed at first; `oneshot` kind (three run-once after_request hooks that unregister themselves)',
+ 'C09_12': 'missed at first; histories on an application with a configured errors_map whose texts need escaping; `prepared_error` kind',
+ 'C11_12': 'missed at first; removal through the Route object an earlier add() returned (possibly stale), in the generator and the bounded alphabet',
+ 'C12_11': 'missed at first; boundaries of 69-1000 characters, well-formed / truncated / empty bodies, every reader',
+ 'C12_12': 'missed at first; uploads are read piecewise (first bytes of every upload, a glance at request.body, then the rest) instead of seek(0) + read()',
+ 'C13_11': 'missed at first; the limits handed over as NameSpace / configuration class / class inheriting them from an intermediate class / through setup()',
+ 'C13_12': 'missed at first; request headers about the connection (keep-alive, close, Expect)',
+ 'C14_11': 'missed at first; a HeaderDict instance (filled through its own constructor / update()) as constructor argument',
+ 'C14_12': 'missed at first; a value appended to a COPY of the header dict must not be emitted by the response',
+ 'C15_11': 'missed at first; the response is copied with copy() and the same cookie names are set again on the other object',
+ 'C15_12': 'missed at first; signed values that are or refer to importable objects (os.stat_result, socket constants, functions / builtins by reference, datetime, Decimal ...)',
+ 'C16_11': 'missed at first; the working directory itself as root, spelled as the empty string, `.` or `./`',
+ 'C17_12': 'missed at first; multi-range headers with 9-5000 ranges (the first one decides)',
+ 'C18_11': 'missed at first; chunk sizes with hex letters in either case',
+ 'C18_12': 'missed at first; Request.copy() taken after the form was read must decode the same pairs',
+ 'C19_11': 'missed at first; 1-3 extra slashes at the very start / end of the request path',
+ 'C20_11': 'missed at first; client headers of 11 kinds of user agents on every request',
+ 'C20_12': 'missed at first; debug switched off at run time after error pages were rendered in debug mode',
+ 'C16_12': 'caught by chance at first, lost after an oracle correction; now a grid of dot-dot spelled with a control character / blank / escape inside or beside it',
 }
 
 
